@@ -302,6 +302,34 @@ func run(r *explore.Run, rep *report.R, sc string, c config) {
 	}
 	w := &runner{r: r, rep: rep, sc: sc, c: c, s: s}
 
+	// One reconciler (and syncer) instance serves every claim of the kind:
+	// before the case's own claim, the same instances sync other claims - one
+	// per update policy - which are then removed again. Whatever those syncs
+	// leave behind lives in the instances, not in the cluster.
+	for _, rc := range []struct {
+		rec reconcile.Reconciler
+		tag string
+	}{{csa, "csa"}, {ssa, "ssa"}} {
+		for _, pol := range []string{"Manual", "Automatic"} {
+			o := &unstructured.Unstructured{Object: map[string]any{"spec": map[string]any{
+				"param": "other", "compositionUpdatePolicy": pol,
+				"compositionRef":         map[string]any{"name": "other-comp"},
+				"compositionRevisionRef": map[string]any{"name": "other-comp-rev1"},
+			}}}
+			o.SetGroupVersionKind(xrh.ClaimGVK)
+			o.SetNamespace("ns")
+			o.SetName("zz-other-" + rc.tag + "-" + strings.ToLower(pol))
+			s.Seed(o)
+			on := types.NamespacedName{Namespace: "ns", Name: o.GetName()}
+			xrh.Reconcile(rc.rec, on)
+			xrh.Reconcile(rc.rec, on)
+			for _, x := range s.All(xrh.XRGVK.GroupKind()) {
+				s.Remove(simkube.KeyOf(x))
+			}
+			s.Remove(simkube.KeyOf(o))
+		}
+	}
+
 	c0 := w.sync("first", first, firstSSA, nil)
 	if theXR(s) != nil {
 		xrSide(s, c)
